@@ -1,3 +1,5 @@
 import Generated.SettingsTable
 import Generated.Sites
 import Generated.Builtins
+import Generated.SoapFlow
+import Generated.Constants
